@@ -45,7 +45,7 @@ def pred_class(case):
 
 
 def gen_api_desc(rng, nasty_attrs):
-    d = setbuild.rand_desc(rng, unbalanced=0.0, absolute=0.0)
+    d = setbuild.rand_desc(rng, unbalanced=0.0, absolute=0.0, style_layout=0.3)
     for L in d["langs"]:
         for c in L["caps"]:
             for n in c["nodes"]:
